@@ -31,7 +31,7 @@ def oracle(freq, amp, rng_, peak):
     """property text evaluated by brute force on the implementation's answer; returns None or a reason"""
     freq = np.asarray(freq); amp = np.asarray(amp)
     lo = 0 if rng_[0] is None else int(np.argmin(np.abs(freq - rng_[0])))
-    hi = len(freq) if rng_[1] is None else int(np.argmin(np.abs(freq - rng_[1])))
+    hi = len(freq) if rng_[1] is None else int(np.argmin(np.abs(freq - rng_[1]))) + 1   # through the sample nearest to the upper limit
     sl = amp[lo:hi]
     pm = plateau_maxima(sl)
     if peak is None:
